@@ -542,4 +542,25 @@ def runMonitors (cfg : Cfg) (tr : List IStep) : List Violation :=
   -- one report per (property, cause)
   m.viol.toList.foldl (fun acc v => if acc.any (fun w => w.prop == v.prop && w.cause == v.cause) then acc else acc ++ [v]) []
 
+/-- C07 at a quiescent moment of the implementation (the executable reading of `Server.WF` on what the harness can see
+    after a block of concurrently handled requests): `members` lists, for every live joined connection, the session
+    number its handler is in and whether the registry resolves that number to that very session; `counts` the
+    registered sessions with their number of participants. -/
+def quiescentRegistry (members : List (Nat × Nat × Bool)) (counts : List (Nat × Nat)) (gauge : Int) : List (String × String) :=
+  let orphans := members.filter fun (m : Nat × Nat × Bool) => !m.2.2
+  let empties := counts.filter fun (c : Nat × Nat) => c.2 == 0
+  let ids := counts.map Prod.fst
+  let miscounted := counts.filter fun (c : Nat × Nat) =>
+    (members.filter fun (m : Nat × Nat × Bool) => m.2.1 == c.1 && m.2.2).length != c.2
+  (if orphans.isEmpty then [] else
+    [("joined-session-not-discoverable", s!"connections {orphans.map Prod.fst} were answered a successful join and are in sessions {orphans.map fun (m : Nat × Nat × Bool) => m.2.1} that the registry does not resolve to the session they are in (registered: {counts})")]) ++
+  (if empties.isEmpty then [] else
+    [("empty-session-discoverable", s!"sessions {empties.map Prod.fst} are registered and have no participant (members: {members})")]) ++
+  (if ids.eraseDups.length == ids.length then [] else
+    [("two-sessions-share-an-id", s!"registered sessions {ids}")]) ++
+  (if gauge == (counts.length : Int) then [] else
+    [("session-gauge-off", s!"the session gauge reads {gauge} with {counts.length} sessions registered {ids}")]) ++
+  (if miscounted.isEmpty then [] else
+    [("membership-miscounted", s!"sessions {miscounted} (id, participants) against the live connections in them {members}")])
+
 end Hagall.Spec
